@@ -2,6 +2,7 @@ package main
 
 import (
 	"fmt"
+	"go/token"
 	"go/types"
 	"sort"
 	"strings"
@@ -401,6 +402,18 @@ func (v *Verifier) loopWriteSet(fn *ssa.Function, li *loopInfo) (map[string]bool
 type loopRec struct {
 	measure *Term
 	ws      map[string]bool
+	head    []*State   // per preserved clause: state at the cut point (after havoc) with the closure cells
+	pres    [][2]Value // guard and expression closures of the preserved clauses, bound at the cut point
+}
+
+// applySpec evaluates a specification closure on one integer argument in the given state
+func (ex *Exec) applySpec(fr *Frame, st *State, f Value, arg *Term) Value {
+	cl, ok := f.(VFunc)
+	if !ok {
+		panic(unsupported("preserved needs function literals"))
+	}
+	sf := &Frame{fn: fr.fn, vals: fr.vals, depth: fr.depth, spec: true}
+	return ex.inline(sf, st, True, cl.Fn, []Value{VBV{arg}}, cl.Binds, true, token.NoPos)
 }
 
 func (ex *Exec) contractOfFrame(fr *Frame) *Contract {
@@ -582,6 +595,13 @@ func (ex *Exec) cutLoop(fr *Frame, li *loopInfo, pc *Term, st *State, nloops int
 	if decr != nil {
 		rec.measure = ex.evalClause(fr, st, pc, decr, nil)
 	}
+	if c != nil && len(c.Preserved[li.ord]) > 0 && c.NLoops == nloops {
+		for _, p := range c.Preserved[li.ord] {
+			ex.evalClause(fr, st, pc, p, nil)
+			rec.pres = append(rec.pres, ex.lastPreserved)
+			rec.head = append(rec.head, ex.lastPreservedSt)
+		}
+	}
 	return pc, st
 }
 
@@ -600,6 +620,29 @@ func (ex *Exec) loopBackEdge(fr *Frame, li *loopInfo, pc *Term, st *State) {
 		return
 	}
 	pos := li.header.Instrs[0].Pos()
+	if rec := fr.loopRecs[li]; rec != nil && rec.head != nil {
+		// preserved n :: g(n) :: e(n): e has the same value at the cut point and at the back edge for every
+		// n with g(n) (g evaluated at the cut point); proved by induction on n, then assumed for all n
+		for k, p := range c.Preserved[li.ord] {
+			ex.evalClause(fr, st, pc, p, nil)
+			now, nowSt := ex.lastPreserved, ex.lastPreservedSt
+			q := func(x *Term) *Term {
+				g := ex.applySpec(fr, rec.head[k], rec.pres[k][0], x).(VBool).T
+				a, b := toLeaves(ex.applySpec(fr, rec.head[k], rec.pres[k][1], x)), toLeaves(ex.applySpec(fr, nowSt, now[1], x))
+				var eqs []*Term
+				for i := range a {
+					eqs = append(eqs, Eq(a[i], b[i]))
+				}
+				return Implies(g, And(eqs...))
+			}
+			n := Fresh("ind$n", BV64)
+			label := fmt.Sprintf("loop %d: preserved %s", li.ord, p.Text)
+			ex.oblige(fr, "preserved-base", label, pos, pc, Implies(SLe(n, C64(0)), q(n)), p.Props)
+			ex.oblige(fr, "preserved-step", label, pos, pc, Implies(And(SLt(C64(0), n), q(Sub(n, C64(1)))), q(n)), p.Props)
+			m := Bound("m", BV64)
+			ex.assume(pc, Forall([]*Term{m}, q(m)))
+		}
+	}
 	for _, inv := range c.Invs[li.ord] {
 		t := ex.evalClause(fr, st, pc, inv, nil)
 		ex.oblige(fr, "inv-step", fmt.Sprintf("loop %d: %s", li.ord, inv.Text), pos, pc, t, inv.Props)
